@@ -215,15 +215,16 @@ theorem UI_cnEnter (cfg : Cfg) (hf : cfg.fix = true ∧ cfg.fix2 = true ∧ cfg.
     have h0 : UIbut (slot w) ({ n with sockFail := n.sockFail - 1 } : N) := h.same ⟨rfl, rfl, rfl, rfl⟩
     exact UI_cnFail cfg hf _ w h0 (by cases w <;> exact hd)
   · split
-    · simp only
-      have h1 : UIbut (slot w) ({ n with links := n.links ++ [({ who := w } : Link)], backlog := n.backlog ++ [n.links.length] } : N) :=
-        h.same ⟨rfl, rfl, rfl, rfl⟩
-      have hd1 : (({ n with links := n.links ++ [({ who := w } : Link)], backlog := n.backlog ++ [n.links.length] } : N).cn w).deadline = none := by
-        cases w <;> exact hd
-      have hp := (h1.setCn' (w := w) ((({ n with links := n.links ++ [({ who := w } : Link)], backlog := n.backlog ++ [n.links.length] } : N).cn w))).same
-        (USame.mk rfl rfl rfl rfl)
-      exact ((h1.setCn _ ⟨by simp, by simp [hd1]⟩).push _).push _
-    · exact UI_cnFail cfg hf n w h hd
+    · have h0 : UIbut (slot w) ({ n with connFail := n.connFail - 1 } : N) := h.same ⟨rfl, rfl, rfl, rfl⟩
+      exact UI_cnFail cfg hf _ w h0 (by cases w <;> exact hd)
+    · split
+      · simp only
+        have h1 : UIbut (slot w) ({ n with links := n.links ++ [({ who := w } : Link)], backlog := n.backlog ++ [n.links.length] } : N) :=
+          h.same ⟨rfl, rfl, rfl, rfl⟩
+        have hd1 : (({ n with links := n.links ++ [({ who := w } : Link)], backlog := n.backlog ++ [n.links.length] } : N).cn w).deadline = none := by
+          cases w <;> exact hd
+        exact ((h1.setCn _ ⟨by simp, by simp [hd1]⟩).push _).push _
+      · exact UI_cnFail cfg hf n w h hd
 
 theorem UI_cnStop (n : N) (w : Who) (h : UI n) : UI (cnStop n w) := by
   have hc := h.cn w
@@ -509,7 +510,14 @@ theorem UI_handle (cfg : Cfg) (hf : cfg.fix = true ∧ cfg.fix2 = true ∧ cfg.f
       split
       · split
         · exact UI.push (n := { n with acceptFail := n.acceptFail - 1 }) (h.same ⟨rfl, rfl, rfl, rfl⟩) _
-        · exact UI_runCb cfg hf _ _ _ _ (UI_svAccept n _ _ h)
+        · split
+          · rename_i l rest _ _ _ _
+            have h0 : UI (({ n with acceptAbort := n.acceptAbort - 1, backlog := rest } : N).closeSNow l) :=
+              UI.closeSNow (n := { n with acceptAbort := n.acceptAbort - 1, backlog := rest }) (h.same ⟨rfl, rfl, rfl, rfl⟩) l
+            split
+            · exact h0.push _
+            · exact h0
+          · exact UI_runCb cfg hf _ _ _ _ (UI_svAccept n _ _ h)
       · exact h
   | toS l d =>
       simp only [handle]
@@ -670,9 +678,11 @@ theorem UI_drain (cfg : Cfg) (hf : cfg.fix = true ∧ cfg.fix2 = true ∧ cfg.fi
       unfold drain
       split
       · exact ih _ (UI_handle cfg hf _ _ (h.same ⟨rfl, rfl, rfl, rfl⟩))
-      · split
-        · exact h
-        · exact ih _ (h.same ⟨rfl, rfl, rfl, rfl⟩)
+      · have h' : UI n.endPass := h.same ⟨rfl, rfl, rfl, rfl⟩
+        simp only
+        split
+        · exact h'
+        · exact ih _ (h'.same ⟨rfl, rfl, rfl, rfl⟩)
 
 theorem UI_stepQ (cfg : Cfg) (hf : cfg.fix = true ∧ cfg.fix2 = true ∧ cfg.fix3 = true) (n : N) (op : Op) (h : UI n) : UI (stepQ cfg n op) := by
   unfold stepQ; split
